@@ -477,6 +477,50 @@ def run(ctx):
                     real_cases.append((cfg, eops, sigs_r, r["error"]))
                     if any(o[0] == "repop" and o[2] for o in eops):
                         ctx.mark_nontrivial(("real", j))
+        # the phases as library functions on a fitted state, with the data of the call differing from the data the state was
+        # fitted to (the labelling step is also the library's way to label new data): a longer or a shorter series.
+        # The state given must come back untouched (frame) and the state returned must satisfy the invariant.
+        from fast_ticc.containers import arguments as _arg
+        from fast_ticc import cluster_maintenance as _cm, graphical_lasso as _gl, cluster_label_assignment as _cla
+        for j in range(ctx.budget(24, 120)):
+            Kf = 2 + j % 3
+            n0 = 20 + 3 * (j % 5)
+            d_fit = data_rng.normal(size=(n0, 2))
+            lab0 = [k for k in range(Kf)] * 2 + [int(x) for x in data_rng.integers(0, Kf, size=n0 - 2 * Kf)]
+            ua = _arg.UserArguments(sparsity_weight=0.11, iteration_limit=5, label_switching_cost=2.0, min_cluster_size=1,
+                                    min_meaningful_covariance=0, num_clusters=Kf, num_processors=1, biased_covariance=bool(j % 2), window_size=1)
+            st0 = _ms.ModelState.empty_model(ua, d_fit)
+            st0.point_labels = list(lab0)
+            case = {"K": Kf, "fitted_on_points": n0, "labels": lab0}
+            with ctx.guard("phases on a fitted state", case):
+                st1 = _cm.update_all_cluster_statistics(st0, d_fit)
+                st2 = _gl._retrieve_optimization_results(st1, [FakeTask(theta_for(j % 7, k, 2)) for k in range(Kf)])
+                for delta in (0, 7, -6, 1, -1)[: (5 if ctx.thorough else 3 + j % 3)]:
+                    n1 = n0 + delta
+                    d_new = d_fit[:n1] if delta <= 0 else np.vstack([d_fit, data_rng.normal(size=(delta, 2))])
+                    # new labels: the old ones on the common prefix, with the tail (or the cut) changing only the LAST cluster's membership
+                    new_lab = (list(lab0) + [Kf - 1] * max(delta, 0))[:n1]
+                    if j % 2 and n1 > 2:
+                        new_lab[1] = (new_lab[1] + 1) % Kf
+                    before = e2e.snap_state(st2)
+                    orig_k = _cla.assign_point_cluster_labels
+                    _cla.assign_point_cluster_labels = lambda label_assignment_cost, label_switching_cost, _l=new_lab: (list(_l), 1.5)
+                    try:
+                        st3 = _cla.predict_cluster_labels(st2, d_new)
+                    finally:
+                        _cla.assign_point_cluster_labels = orig_k
+                    after = e2e.snap_state(st2)
+                    dd = frame_diff(before, after, "relabel")
+                    c2 = dict(case, new_data_points=n1, new_labels=new_lab)
+                    if dd:
+                        ctx.violation("monitor", "the labelling step altered the state it was given (data of %d points, state fitted to %d): %s" % (n1, n0, dd), {"case": c2})
+                    why = inv_holds(e2e.snap_state(st3))
+                    if why:
+                        ctx.violation("monitor", "the state returned by the labelling step breaks the partition invariant: %s" % why, {"case": c2})
+                    if [int(x) for x in st3.point_labels] != new_lab:
+                        ctx.violation("monitor", "the state returned by the labelling step does not carry the assigned labels", {"case": c2})
+                    ctx.count("relabel-other-length")
+                    ctx.mark_nontrivial(("rol", j, delta))
         # traced runs: invariant + frame at every phase boundary
         runs = e2e.cached_runs(ctx, e2e.standard_grid(ctx.seed, ctx.thorough), "std")
         e2e.traced_run({"N": 1, "W": 2, "K": 2, "beta": 1.0, "lengths": [30], "limit": 2, "m": 1, "data_seed": 1, "rng_seed": 1, "joint": False})
